@@ -529,9 +529,9 @@ int main(int argc, char **argv){
     //          loop-end-nowait (no visible operation follows them before the next choice point, so no behaviour is lost under data-race freedom)
     auto coreB = [](const Hist &h)->bool{ return h.tier == 0 && (h.name.find("2d") != std::string::npos || h.fam() == "pso" || h.name == "localp:localp:o1:3d:refine"); };
     struct WU { size_t h; int T; long r0, r1; int bound; bool fine; }; std::vector<WU> W; long per = A.geti("--regions-per-unit", tier == "quick" ? 60 : 30);
+    long cap2 = A.geti("--k2-cap", 40); std::string phase = A.get("--phase", "AB");
     int kA = A.has("--bound") ? bound : 1; bool phaseB = (tier != "quick") && !A.has("--bound"); if (phase.find('B') == std::string::npos) phaseB = false; std::vector<int> teamsB = {2, 3}; if (A.has("--teams2")){ auto v = vf::jints(A.get("--teams2")); teamsB.assign(v.begin(), v.end()); }
     bool fineA = !A.has("--coarse");
-    long cap2 = A.geti("--k2-cap", 40); std::string phase = A.get("--phase", "AB");
     for(size_t hi=0; hi<H.size(); hi++){ if (phase.find('A') == std::string::npos) break; W.push_back({hi, 1, 0, 0, 0, true}); for(int T : teams){ if (T >= 4 && H[hi].tier != 0 && !A.has("--teams")) continue; long R = std::max<long>(nreg[hi], 1); for(long r = 0; r < R; r += per) W.push_back({hi, T, r, (r + per >= R) ? LONG_MAX : r + per, kA, fineA}); } }
     { auto rank = [](int T)->int{ return T == 3 ? 0 : T == 2 ? 1 : T == 1 ? 2 : T; }; std::stable_sort(W.begin(), W.end(), [&](const WU &a, const WU &b){ return rank(a.T) < rank(b.T); }); }   // teams of 3, 2, (1), then 4: if the deadline cuts the run, the smaller teams are complete
     size_t nA = W.size(); long perB = std::max<long>(per / 4, 5);
